@@ -246,7 +246,7 @@ def store_orphans(d):
 
 
 def explain(h):
-    p = os.path.join(vlib.GEN, "explain_C07.v")
+    p = os.path.join(vlib.GEN, "explain_C07_p%d.v" % os.getpid())
     open(p, "w").write(explain_text(h))
     rc, out = vlib.sh(["coqc", "-Q", ".", "Verif", p], cwd=vlib.COQ, timeout=600)
     return out.strip()[-400:]
